@@ -971,6 +971,18 @@ def _mfun_eval(eqn, ins, ctx):
             for j in range(3):
                 out[i, j] = v[i][j]
         return [out]
+    if name == 'inv':
+        if _is_const_matrix(A, 1):
+            v = ident(1)
+            for i in range(3):
+                for j in range(3):
+                    out[i, j] = v[i][j]
+            return [out]
+        args = [A[i, j] for i in range(3) for j in range(3)]
+        for i in range(3):
+            for j in range(3):
+                out[i, j] = tm.app('inv_%d%d' % (i, j), args)
+        return [out]
     args = _sym_args(A) + [real_of_float(e) for e in extra]
     for i in range(3):
         for j in range(i, 3):
@@ -1027,11 +1039,8 @@ class tensor_stubs:
             A = jnp.asarray(A)
             if A.shape != (3, 3):
                 return self._inv(A)
-            c = jnp.array([[A[1, 1] * A[2, 2] - A[1, 2] * A[2, 1], A[0, 2] * A[2, 1] - A[0, 1] * A[2, 2], A[0, 1] * A[1, 2] - A[0, 2] * A[1, 1]],
-                           [A[1, 2] * A[2, 0] - A[1, 0] * A[2, 2], A[0, 0] * A[2, 2] - A[0, 2] * A[2, 0], A[0, 2] * A[1, 0] - A[0, 0] * A[1, 2]],
-                           [A[1, 0] * A[2, 1] - A[1, 1] * A[2, 0], A[0, 1] * A[2, 0] - A[0, 0] * A[2, 1], A[0, 0] * A[1, 1] - A[0, 1] * A[1, 0]]])
-            det = A[0, 0] * c[0, 0] + A[0, 1] * c[1, 0] + A[0, 2] * c[2, 0]
-            return c / det
+            # opaque inverse: identities proved with it hold for every matrix in its place
+            return mfun('inv', A)
         self._inv = jnp.linalg.inv
         patch(jnp.linalg, 'inv', inv3)
         self._det = jnp.linalg.det
